@@ -41,8 +41,12 @@ typedef struct { int leak_fd, leak_sec; char secname[24], how[8]; size_t out1, o
 static void scan_all(void) { char how[8] = ""; size_t t1, t2; int s = scan_fd(CAP1, &t1, how); CO->out1 = t1; if (s >= 0) { CO->leak_fd = 1; CO->leak_sec = s; snprintf(CO->secname, sizeof CO->secname, "%s", SEC[s].name); strcpy(CO->how, how); } int s2 = scan_fd(CAP2, &t2, how); CO->out2 = t2; if (s2 >= 0 && !CO->leak_fd) { CO->leak_fd = 2; CO->leak_sec = s2; snprintf(CO->secname, sizeof CO->secname, "%s", SEC[s2].name); strcpy(CO->how, how); } }
 
 /* ---- handshake executions ---- */
-enum { V_HONEST, V_DEFECT, V_FAULT, V_ENTROPY };
-typedef struct { int kind; cred_defects df; int who; int fdir, fidx, fkind; long fail_at; int fail_role; } variant_t;
+enum { V_HONEST, V_DEFECT, V_FAULT, V_ENTROPY, V_OPS };
+typedef struct { int kind; cred_defects df; int who; int fdir, fidx, fkind; long fail_at; int fail_role; int cops[2], sops[2]; } variant_t;
+/* post-handshake operation sequences: each side runs two operations out of {send 24 bytes, receive, shutdown} in its own order */
+typedef struct { ep_t e; int ops[2]; } oep_t;
+static int oep_task(void *arg) { oep_t *o = (oep_t *)arg; o->e.do_app = 0; o->e.do_close = 0; int r = ep_task(&o->e); if (o->e.hs_ret != 1) return r; TLS_CONNECT *conn = o->e.conn_out; static __thread uint8_t rb[20000];
+	for (int i = 0; i < 2; i++) { size_t g = 0; switch (o->ops[i]) { case 0: ep_send(&o->e, conn, APPDATA[o->e.is_client ? 0 : 1], 24); break; case 1: ep_recv(&o->e, conn, rb, sizeof rb, &g); break; default: if (o->e.proto != P_TLS13) tls_shutdown(conn); break; } } return r; }
 static variant_t CURV;
 static int hadv(vn_rec *r) { if (CURV.kind != V_FAULT || r->dir != CURV.fdir || r->idx != CURV.fidx) return 1; switch (CURV.fkind) { case 0: if (r->len > 6) r->rec[5 + (r->len - 5) / 2] ^= 0x10; return 1; case 1: return 0; case 2: return 2; default: return 1; } }
 static char HFAIL[32];
@@ -51,7 +55,7 @@ static void hs_exec(int proto, int mutual, const variant_t *v) { memset(CO, 0, s
 		c.proto = s.proto = proto; c.is_client = 1; c.mutual = s.mutual = mutual; c.own = &cli; s.own = &srv; c.trust = &srv; s.trust = mutual ? &cli : NULL; c.entropy_key = 0xC11E17; s.entropy_key = 0x5E12BE12; c.entropy_fail_at = (v->kind == V_ENTROPY && v->fail_role == 0) ? v->fail_at : -1; s.entropy_fail_at = (v->kind == V_ENTROPY && v->fail_role == 1) ? v->fail_at : -1;
 		c.do_app = s.do_app = 1; c.do_close = s.do_close = 1; c.out = (app_dir){ { 24 }, 1, 64 }; s.in = c.out; s.out = (app_dir){ { 24 }, 1, 64 }; c.in = s.out;
 		uint8_t d[32]; sm2_z256_to_bytes(srv.signkey.private_key, d); sec_add("server-sign-key", d, 32); sm2_z256_to_bytes(srv.kenckey.private_key, d); sec_add("server-enc-key", d, 32); sm2_z256_to_bytes(cli.signkey.private_key, d); sec_add("client-sign-key", d, 32); sec_add("app-data-c", APPDATA[0], 24); sec_add("app-data-s", APPDATA[1], 24);
-		vn_adv = hadv; cap_begin(); int cr, sr; vnet_run2(ep_task, &c, ep_task, &s, &cr, &sr); cap_end(); CO->c_hs = c.hs_ret; CO->s_hs = s.hs_ret; scan_all(); _exit(0); }
+		vn_adv = hadv; cap_begin(); int cr, sr; if (v->kind == V_OPS) { static oep_t oc, os; oc.e = c; os.e = s; memcpy(oc.ops, v->cops, sizeof oc.ops); memcpy(os.ops, v->sops, sizeof os.ops); vnet_run2(oep_task, &oc, oep_task, &os, &cr, &sr); c = oc.e; s = os.e; } else vnet_run2(ep_task, &c, ep_task, &s, &cr, &sr); cap_end(); CO->c_hs = c.hs_ret; CO->s_hs = s.hs_ret; scan_all(); _exit(0); }
 	int st; while (waitpid(pid, &st, 0) < 0 && errno == EINTR) {} if (!WIFEXITED(st) || WEXITSTATUS(st)) snprintf(HFAIL, sizeof HFAIL, "%s", WIFSIGNALED(st) && WTERMSIG(st) == SIGALRM ? "hang" : "crash"); }
 static void judge(const char *blk, const char *what) { char key[200]; if (HFAIL[0]) return; /* crashes / hangs are C06 / C18 territory */ if (CO->leak_fd) { snprintf(key, sizeof key, "C19:%s:%s:%s-on-%s", blk, what, CO->secname, CO->leak_fd == 1 ? "stdout" : "stderr"); vh_viol(key, "\"secret\":\"%s\",\"form\":\"%s\",\"stdout_bytes\":%zu,\"stderr_bytes\":%zu", CO->secname, CO->how, CO->out1, CO->out2); } }
 static uint64_t NEXEC;
@@ -61,6 +65,7 @@ static void blk_handshakes(void) {
 		variant_t v; memset(&v, 0, sizeof v); v.kind = V_HONEST; if (vh_next()) { hs_exec(p, m, &v); NEXEC++; vh_eval(vh_mix(p * 10 + m + 1)); if (HFAIL[0] || CO->c_hs != 1 || CO->s_hs != 1) vh_viol("C19:honest-handshake-does-not-complete", "\"proto\":\"%s\"", PNAME[p]); judge(bn, "honest"); vh_sample("{\"block\":\"%s\",\"variant\":\"honest\",\"stdout_bytes\":%zu,\"stderr_bytes\":%zu}", bn, CO->out1, CO->out2); }
 		for (int d = 0; d < 6; d++) for (int who = 0; who <= m; who++) { if (!vh_next()) continue; memset(&v, 0, sizeof v); v.kind = V_DEFECT; v.df = DF[d].d; v.who = who; hs_exec(p, m, &v); NEXEC++; vh_eval(vh_mix(p * 1000 + m * 500 + d * 10 + who + 7)); char w[64]; snprintf(w, sizeof w, "%s-%s", who ? "client" : "server", DF[d].n); judge(bn, w); }
 		for (int dir = 0; dir < 2; dir++) for (int idx = 0; idx < 8; idx++) for (int k = 0; k < 3; k++) { if (!vh_next()) continue; memset(&v, 0, sizeof v); v.kind = V_FAULT; v.fdir = dir; v.fidx = idx; v.fkind = k; hs_exec(p, m, &v); NEXEC++; vh_eval(vh_mix(p * 10000 + m * 5000 + dir * 1000 + idx * 10 + k + 3)); char w[64]; snprintf(w, sizeof w, "%s-record%d-%s", dir ? "c2s" : "s2c", idx, k == 0 ? "bitflip" : k == 1 ? "drop" : "duplicate"); judge(bn, "tampered"); (void)w; }
+		if (m == 0) for (int co = 0; co < 9; co++) for (int so = 0; so < 9; so++) { if (!vh_next()) continue; memset(&v, 0, sizeof v); v.kind = V_OPS; v.cops[0] = co / 3; v.cops[1] = co % 3; v.sops[0] = so / 3; v.sops[1] = so % 3; hs_exec(p, m, &v); NEXEC++; vh_eval(vh_mix(p * 1000000 + co * 100 + so + 11)); static const char *ON[3] = { "send", "recv", "shutdown" }; char w[96]; snprintf(w, sizeof w, "ops-client-%s-%s-server-%s-%s", ON[co / 3], ON[co % 3], ON[so / 3], ON[so % 3]); judge(bn, w); }
 		for (int role = 0; role < 2; role++) for (long i = 0; i < 72; i++) { if (!vh_next()) continue; memset(&v, 0, sizeof v); v.kind = V_ENTROPY; v.fail_role = role; v.fail_at = i; hs_exec(p, m, &v); NEXEC++; vh_eval(vh_mix(p * 100000 + m * 50000 + role * 1000 + i + 9)); judge(bn, role ? "server-entropy-failure" : "client-entropy-failure"); }
 	}
 }
